@@ -25,19 +25,32 @@ func init() {
 					return err
 				}
 			}
-			return runClosureProperty(r, id, [][]string{{}}, false)
+			return runClosureProperty(r, id, closureOptionSets(id, r.Tier), false)
 		}})
 	}
 	register(&propertyDef{ID: "C09", Level: "other", Run: runC09})
 	register(&propertyDef{ID: "C14", Level: "other", Run: runC14})
-	register(&propertyDef{ID: "C04", Level: "proof", Run: func(r *Run) error { return runRuntime(r, "C04") }})
+	// C04 and C05 are stated over the tokens of a successful parse: besides Execute / AST and the runtime core they validate
+	// the token clauses (C03) of the emitted closures, so that an emitter change that corrupts the token sequence is
+	// reported under these properties too
+	register(&propertyDef{ID: "C04", Level: "proof", Run: func(r *Run) error {
+		if err := runRuntime(r, "C04"); err != nil {
+			return err
+		}
+		return runClosureProperty(r, "C04", closureOptionSets("C04", r.Tier), false)
+	}})
 	register(&propertyDef{ID: "C12", Level: "proof", Run: func(r *Run) error {
 		if err := runRuntime(r, "C12"); err != nil {
 			return err
 		}
 		return runRuntimeNoast(r) // Reset of a -noast parser
 	}})
-	register(&propertyDef{ID: "C05", Level: "proof", Run: func(r *Run) error { return runRuntime(r, "C05") }})
+	register(&propertyDef{ID: "C05", Level: "proof", Run: func(r *Run) error {
+		if err := runRuntime(r, "C05"); err != nil {
+			return err
+		}
+		return runClosureProperty(r, "C05", closureOptionSets("C05", r.Tier), false)
+	}})
 	register(&propertyDef{ID: "C18", Level: "proof", Run: func(r *Run) error {
 		u, keys, err := loadMainUnit()
 		if err != nil {
@@ -115,6 +128,10 @@ func attributed(ob *Obligation, id string) bool {
 			if (id == "C02" || id == "C17") && (p == "C01" || p == "C03") {
 				return true
 			}
+			// C04 and C05 rest on the token sequence
+			if (id == "C04" || id == "C05") && p == "C03" {
+				return true
+			}
 		}
 		return false
 	}
@@ -133,6 +150,39 @@ func attributed(ob *Obligation, id string) bool {
 		return id == "C13"
 	}
 	return false
+}
+
+// closureOptionSets: under which peg options the closures of the program family are validated for a property that is not
+// itself about options. The quick tier takes the default and the fully optimised parser (the two ends), the thorough tier
+// every combination; C13 (memory safety) also covers parsers without AST. The register (C11) is only specified for the
+// ordered choice, i.e. without -switch.
+func closureOptionSets(id, tier string) [][]string {
+	ast := [][]string{{}, {"-inline"}, {"-switch"}, {"-inline", "-switch"}}
+	noast := [][]string{{"-noast"}, {"-noast", "-inline"}, {"-noast", "-switch"}, {"-noast", "-inline", "-switch"}}
+	thorough := tier == "thorough"
+	switch id {
+	case "C01", "C03", "C06":
+		if thorough {
+			return ast
+		}
+		return [][]string{{}, {"-inline", "-switch"}}
+	case "C13":
+		if thorough {
+			return append(ast, noast...)
+		}
+		return [][]string{{}, {"-inline", "-switch"}, {"-noast", "-inline", "-switch"}}
+	case "C11":
+		if thorough {
+			return [][]string{{}, {"-inline"}}
+		}
+		return [][]string{{}}
+	case "C04", "C05":
+		if thorough {
+			return [][]string{{}, {"-inline", "-switch"}}
+		}
+		return [][]string{{}}
+	}
+	return [][]string{{}}
 }
 
 type programSpec struct {
@@ -224,6 +274,11 @@ func runClosureProperty(r *Run, id string, optSets [][]string, corpusOnly bool) 
 				}
 			}
 			j.sub.Obls = kept
+			// solve this program's obligations now and drop its symbolic state: a run over all programs and option
+			// sets would otherwise hold every unit, CFG and query at once (23 GB for C02's quick tier)
+			j.sub.solveAll()
+			j.sub.release()
+			j.unit = &Unit{Name: gp.Unit.Name, CS: gp.Unit.CS}
 		}(j)
 	}
 	wg.Wait()
